@@ -131,6 +131,22 @@ class Acceptor:
 
     # ------------------------------------------------------------------ trace access
     def peek(self):
+        # is_event_deferred predicate calls (backmp11) are reads: transparent, but validated
+        while self.pos < len(self.recs) and self.recs[self.pos].k == 'DF':
+            r = self.recs[self.pos]
+            mname, sname = r.site.split('.')
+            st = self.ix.machines[mname]['states'][sname]
+            ev = self.norm_ev(r)
+            if ev is not None and ev.startswith('any/'):
+                ev = ev[4:]
+            bad = ev not in st['deferred'] or st.get('defer_atom') is None
+            if not bad and self.gmask is not None and r.v != ((self.gmask >> (st['defer_atom'] & 63)) & 1):
+                bad = True
+            if bad:
+                raise Reject({'C05'}, 'deferral-predicate', 'predicate of a state deferring the event', r.raw, self.pos)
+            self.hit('C05', ('predicate', r.site, r.ev, r.v))
+            self.pos += 1
+            self.counts['records'] += 1
         return self.recs[self.pos] if self.pos < len(self.recs) else None
 
     def take(self):
@@ -468,6 +484,8 @@ class Acceptor:
             rows += s['internal']
         if typ == 'none':
             return False           # completion events are never forwarded: each level runs its own rounds
+        if self.cfg == 'mc':
+            return True            # backmp11 favor_compile_time offers every event to an active submachine
         for r in rows:
             if self.trig_matches(r['ev'], typ):
                 return True
@@ -806,6 +824,8 @@ class Acceptor:
                 return
             cand = self.next_pending(mi, nxt)
             if cand is None:
+                cand = self.infer_nested(mi, nxt)
+            if cand is None:
                 return
             kind, occ = cand
             if kind == 'q':
@@ -835,9 +855,20 @@ class Acceptor:
         """would dispatching occ on mi leave at least one record?"""
         if self.has_candidates(mi, occ.typ):
             return True
-        if not self.mp and any(occ.typ in mi.m['states'][sn]['deferred'] for sn in mi.active):
-            return False          # moved to the deferred queue without any callback
+        if not self.mp and self.would_defer(mi, occ.typ):
+            return False          # moved to a deferred queue without any callback
         return self.src_of(mi, occ) != 'sub'     # direct calls report no_transition
+
+    def would_defer(self, mi, typ):
+        """back: some active state (at this level or, through forwarding, below) defers typ by its list"""
+        for sn in mi.active:
+            st = mi.m['states'][sn]
+            if st['kind'] == 'sub':
+                if self.sub_knows(mi.children[sn], typ) and self.would_defer(mi.children[sn], typ):
+                    return True
+            elif typ in st['deferred']:
+                return True
+        return False
 
     def has_candidates(self, mi, typ):
         for sn in mi.active:
@@ -869,6 +900,30 @@ class Acceptor:
         for o in mi.deferred:
             if o.id == nxt.id and self.same_type(o.typ, lab):
                 return ('d', o)
+        return None
+
+    def infer_nested(self, mi, nxt):
+        """the next record dispatches an occurrence pending in an active submachine below mi: that happens
+        at the scheduling point inside the dispatch of one of mi's own pending occurrences whose first
+        visible effect lies in that submachine; pick the oldest eligible one that is forwarded there"""
+        if nxt.k not in ('G', 'A', 'EN', 'EX', 'NT', 'XC') or nxt.id < 0:
+            return None
+        below = None
+        for sn in mi.active:
+            if mi.kind(sn) == 'sub':
+                for x in mi.children[sn].all():
+                    if x.is_active_instance() and any(o.id == nxt.id for o in x.queue + x.deferred):
+                        below = mi.children[sn]
+        if below is None:
+            return None
+        pool = [('d', o) for o in mi.deferred if not self.list_defers(mi, o.typ, self.mp)]
+        pool += [('q', o) for o in mi.queue if not (self.mp and self.list_defers(mi, o.typ, True))][:1]
+        if self.mp:
+            pool.sort(key=lambda ko: ko[1].seq)
+        for kind, o in pool:
+            if self.sub_knows(below, o.typ) and not self.has_candidates(below, o.typ):
+                self.hit('C04', ('nested-first', mi.name, below.name))
+                return (kind, o)
         return None
 
     def same_type(self, typ, lab):
